@@ -140,3 +140,37 @@ HARNESS(mx_stats) {
   WITNESS();
 }
 #endif
+
+// Contended: ANOTHER thread holds the index mutex (e.g. the caller of a get() that found its key still owns the returned handle).  Every
+// public method must then wait in lock() - in the encoding the run ends there, reached - and none may enter the inner index or return.
+// A method that merely TRIES to take the mutex and carries on regardless reaches the entry hook without holding it.
+HARNESS(mx_contended) {
+  static db_t d; build(d);
+  const std::uint64_t k = in_u64(); const std::uint8_t v = 9;
+  const unsigned op = static_cast<unsigned>(in_range(0, 15));
+  unsigned n = 0; auto fn = [&n](const auto&) { n++; return false; };
+  verif_mutex_foreign(1);
+  switch (op) {
+    case 0: { auto r = d.get(k); (void)r; break; }
+    case 1: (void)d.insert(k, vv(&v, 1)); break;
+    case 2: (void)d.remove(k); break;
+    case 3: d.clear(); break;
+    case 4: (void)d.empty(); break;
+    case 5: d.scan(fn, true); break;
+    case 6: d.scan(fn, false); break;
+    case 7: d.scan_from(K[1], fn, true); break;
+    case 8: d.scan_from(K[1], fn, false); break;
+    case 9: d.scan_range(K[0], K[2], fn); break;
+#ifdef UNODB_DETAIL_WITH_STATS
+    case 10: (void)d.get_current_memory_use(); break;
+    case 11: (void)d.get_node_count<node_type::LEAF>(); break;
+    case 12: (void)d.get_node_counts(); break;
+    case 13: (void)d.get_growing_inode_counts(); break;
+    case 14: (void)d.get_shrinking_inode_counts(); break;
+    case 15: (void)d.get_key_prefix_splits(); break;
+#endif
+    default: { auto r = d.get(k); (void)r; break; }
+  }
+  PROP(false, "C13: no operation completes (or touches the index) while another thread holds the index mutex");
+  verif_witness();
+}
